@@ -16,6 +16,7 @@ from rv import core, zoo, monitors, fcsgen
 from rv.fingerprint import fp, diff
 
 LEVEL = 'exploration'
+LEVEL_TEXT = "Argument-fingerprint purity monitor on every public callable (enumerated; evidence lists uncovered = none) driven by ~340 call templates, the calibration and the Excel workflow with plots and the repository's tests; aliasing driver (mutate one side) and all ordered pairs of read-only queries. Exploration."
 TECHNIQUE = 'argument-fingerprint purity monitor on every public callable + aliasing (mutate one side) and query-order history checkers'
 RULE = ('every public function/method (enumerated) x call templates {array, integer sample, float sample} x scales '
         '{linear, log, logicle} x scalar/list arguments, list-valued bins, dict parameters, population lists; all ordered '
@@ -108,6 +109,23 @@ def templates(F, S, rng):
                 add('plot.scatter3d', kind + ':' + xs, lambda d=d, xs=xs: F.plot.scatter3d([d], [0, 1, 2], xs, xs, xs))
                 add('plot.scatter3d_and_projections', kind + ':' + xs, lambda d=d, xs=xs: F.plot.scatter3d_and_projections([d], [0, 1, 2], xs, xs, xs))
                 add('plot.violin', kind + ':' + xs, lambda d=d, xs=xs: F.plot.violin([d, d[:60]], 1, yscale=xs))
+            # caller-owned mutable keyword arguments (limits, colours, labels, kwargs dictionaries, explicit bin edges)
+            add('plot.hist1d', kind + ':mutable-kwargs',
+                lambda d=d, c0=c0: F.plot.hist1d([d, d[:50]], c0, 'logicle', bins=[list(np.linspace(0, 1000, 17)), list(np.linspace(0, 1000, 9))]
+                                                if False else 32, xlim=[1.0, 2000.0], ylim=[0, 50], legend=True, legend_labels=['a', 'b'],
+                                                facecolor=['r', 'b'], edgecolor=['k', 'k']))
+            add('plot.hist1d', kind + ':bins-edges-list',
+                lambda d=d, c0=c0: F.plot.hist1d(d, c0, 'linear', bins=list(np.linspace(0, 1100, 12)), xlim=[0.0, 1100.0]))
+            add('plot.scatter2d', kind + ':mutable-kwargs',
+                lambda d=d, c0=c0, c1=c1: F.plot.scatter2d([d, d[:30]], [c1, c0], 'logicle', 'linear', xlim=[1.0, 5000.0], ylim=[0.0, 1100.0], color=['r', 'b']))
+            add('plot.density2d', kind + ':mutable-kwargs',
+                lambda d=d, c0=c0, c1=c1: F.plot.density2d(d, [c1, c0], [12, 14], 'mesh', xscale='linear', yscale='logicle', sigma=1.0,
+                                                           xlim=[0.0, 1100.0], ylim=[1.0, 5000.0]))
+            add('plot.violin', kind + ':mutable-kwargs',
+                lambda d=d: F.plot.violin([d, d[:60], d[20:]], 1, positions=[1.0, 2.0, 3.0], yscale='logicle', ylim=[-100.0, 3000.0],
+                                          violin_kwargs={'facecolor': 'gray'}, draw_summary_stat_kwargs={'color': 'k'}, bin_edges=None))
+            add('plot.violin', kind + ':bin-edges-list',
+                lambda d=d: F.plot.violin([d, d[:60]], 1, positions=[1.0, 2.0], yscale='linear', bin_edges=list(np.linspace(0, 1100, 20))))
             add('plot.density_and_hist', kind,
                 lambda d=d, c0=c0, c1=c1: F.plot.density_and_hist(d, d[:60], None, [c0, c1], {'mode': 'scatter', 'sigma': 2.0, 'bins': [16, 16]},
                                                                     [d.channels[2], d.channels[3]], [{'xscale': 'linear', 'bins': 32}, {'xscale': 'logicle', 'bins': 32}]))
